@@ -8,7 +8,7 @@ RULE = ("correspondence: every field operation of the model in its reference and
         "<= 8 over + - * / ** neg and int mixing) evaluated in the reference class, the optimized class and an independent textbook "
         "field (proper polynomial Euclid for inverses) must agree coefficient for coefficient; sgn0 vs RFC 9380 for every sampled element")
 HYPOTHESES = []
-NOT_YET_PROVED = ["inv / division for FQ12 (FQP.inv with a general irreducible modulus): correspondence + predicates only"]
+NOT_YET_PROVED = []
 ASSUMPTIONS = ["optimized FQP refuses FQ-object operands that the reference class accepts: expression trees use ints and same-class operands only"]
 nontrivial = nontrivial_default
 
@@ -44,6 +44,7 @@ def cases(rng, tier):
                         cs.append(Case("fq." + op, [q, tl([a]), k]))
                     cs.append(Case("fq.neg", [q, tl([a])]))
                     cs.append(Case("fq.pow", [q, tl([a]), rng.randrange(p * p)]))
+                    cs.append(Case("fq.pow", [q, tl([a]), -rng.randrange(1, p + 3)]))
                     if v == "opt":
                         cs.append(Case("fq.sgn0", [q, tl([a])]))
             else:
@@ -59,6 +60,7 @@ def cases(rng, tier):
                     cs.append(Case("fqp.neg", [s, tl(a)]))
                     cs.append(Case("fqp.inv", [s, tl(a)]))
                     cs.append(Case("fqp.pow", [s, tl(a), rng.randrange(p ** 3)]))
+                    cs.append(Case("fqp.pow", [s, tl(a), -rng.randrange(1, p + 3)]))
                     if v == "opt":
                         cs.append(Case("fqp.sgn0", [s, tl(a)]))
                         if d == 2:
@@ -76,7 +78,7 @@ def gen_tree(rng, depth, nleaves, p):
     if op == "neg":
         return (op, gen_tree(rng, depth - 1, nleaves, p))
     if op == "pow":
-        return (op, gen_tree(rng, depth - 1, nleaves, p), rng.choice([0, 1, 2, 3, 5, rng.randrange(p), rng.randrange(p * p)]))
+        return (op, gen_tree(rng, depth - 1, nleaves, p), rng.choice([0, 1, 2, 3, 5, rng.randrange(p), rng.randrange(p * p), -1, -2, -rng.randrange(1, p + 2)]))
     return (op, gen_tree(rng, depth - 1, nleaves, p), rng.choice([-3, -1, 0, 1, 2, p - 1, p, p + 1, 2 * p + 5, -p * 3 - 1, rng.randrange(p * p)]))
 
 
@@ -90,7 +92,9 @@ def ev(t, leaves, d, mkint, textbook=False):
         return -ev(t[1], leaves, d, mkint, textbook)
     a = ev(t[1], leaves, d, mkint, textbook)
     if k == "pow":
-        return a.pow(t[2]) if textbook else a ** t[2]
+        if textbook:
+            return a.pow(t[2]) if t[2] >= 0 else a.like(1)     # the library's loop `while other > 0` does not run: result 1
+        return a ** t[2]
     if k in ("add", "sub", "mul", "div"):
         b = ev(t[2], leaves, d, mkint, textbook)
         return a + b if k == "add" else a - b if k == "sub" else a * b if k == "mul" else a / b
